@@ -263,6 +263,10 @@ else:
 def _histogramdd(
     sample, *, bins=10, range=None, density=None, weights=None, normed=None
 ):
+    if isinstance(sample, np.ndarray):
+        # an (N, D) array holds one point per row, whereas NumPy reads a
+        # sequence as D coordinate arrays: split the array into its columns
+        sample = [sample] if sample.ndim == 1 else list(sample.T)
     range = _sanitize_range(range, units=[getattr(_, "units", None) for _ in sample])
     if NUMPY_VERSION >= Version("1.24"):
         counts, bins = np.histogramdd._implementation(
